@@ -116,6 +116,37 @@ func TestC11(t *testing.T) {
 	for i := 0; i < mon.Pick(60, 10000); i++ {
 		targets = append(targets, CustomTarget(i))
 	}
+	// hellos that carry an encrypted_client_hello extension of type "inner" in the clear (a spec
+	// can say so; nothing is encrypted): no ECH is negotiated, both sides must say so
+	for _, pn := range []string{"Firefox_105", "Chrome_102", "Chrome_120", "Safari_16_0"} {
+		p := ParrotByName(pn)
+		targets = append(targets, Target{Name: p.Name + "+ech-inner-marker", Spec: func() (*tls.ClientHelloSpec, error) {
+			sp, err := tls.UTLSIdToSpec(p.ID)
+			if err != nil {
+				return nil, err
+			}
+			var exts []tls.TLSExtension
+			for _, e := range sp.Extensions {
+				if _, ok := e.(tls.EncryptedClientHelloExtension); ok {
+					continue
+				}
+				exts = append(exts, e)
+			}
+			// before a trailing padding / pre_shared_key extension
+			at := len(exts)
+			for at > 0 {
+				switch exts[at-1].(type) {
+				case *tls.UtlsPaddingExtension, tls.PreSharedKeyExtension:
+					at--
+					continue
+				}
+				break
+			}
+			exts = append(exts[:at], append([]tls.TLSExtension{&tls.GenericExtension{Id: 0xfe0d, Data: []byte{1}}}, exts[at:]...)...)
+			sp.Extensions = exts
+			return &sp, nil
+		}})
+	}
 	type job struct {
 		t     Target
 		gc    GridCase
